@@ -113,7 +113,7 @@ EXC_KINDS = [RuntimeError, TaskAbort, SystemExit, KeyboardInterrupt, StopIterati
 KINDS = ['zero', 'sleep', 'select_t', 'select_none', 'block', 'raise', 'busy']
 
 
-def h_tasks(ctx, prog):
+def h_tasks(ctx, prog, lowprio=False):
   """prog: tuple of per-task tuples of yield kinds"""
   R, s, clock, fs = make_sched(ctx)
   trace = []          # (task, step, clock at start, value received)
@@ -149,10 +149,21 @@ def h_tasks(ctx, prog):
       trace.append((ti, len(kinds), clock.now, got, active[0]))
       active[0] -= 1
     return gen
+  if lowprio:
+    # tasks below priority 1 are picked by lot: every outcome of the first eight draws is explored (a task that loses goes to the back of
+    # the queue); whatever the draws, each step runs once, in order, and sleeps are honoured
+    rolls = [0]
+    def rnd():
+      rolls[0] += 1
+      if rolls[0] > 8: return 0
+      return 0.9 if bool(ctx.bool('lose%d' % rolls[0])) else 0.1
+    s._random = rnd
   try:
     tasks = []
     for ti, kinds in enumerate(prog):
-      t = R.Task(target=body(ti, kinds)); t.start(s); tasks.append(t)
+      t = R.Task(target=body(ti, kinds))
+      if lowprio: t.priority = 0.5
+      t.start(s); tasks.append(t)
     escaped = None
     try:
       done = drive(s, 80, fs)
@@ -384,6 +395,7 @@ def obligations(tier):
   pairs += [(a, b) for a in range(10) for b in range(10) if (a, b) not in pairs and a <= b]
   if thorough: pairs += [(a, b) for a in range(10) for b in range(10) if a > b]
   for a, b in pairs: progs.append((singles[a], singles[b]))
+  low = [(('zero', 'sleep', 'zero'), ('sleep', 'zero')), (('zero', 'zero'), ('zero', 'block')), (('zero', 'zero', 'zero'), ('zero', 'zero', 'zero'))]
   timers = [dict(recurring=False, cancel_after='never'), dict(recurring=False, cancel_after='cancel_before'), dict(recurring=True, cancel_after='never'),
             dict(recurring=True, cancel_after='return_false'), dict(recurring=True, cancel_after='cancel_at_3'), dict(recurring=True, cancel_after='returns_falsy'),
             dict(recurring=False, cancel_after='never', start='deferred'), dict(recurring=True, cancel_after='cancel_at_3', start='deferred'),
@@ -395,7 +407,7 @@ def obligations(tier):
   BOUNDS[tier] = dict(subtask_chains=[(c['depth'], c['ops'], c.get('siblings', False)) for c in sub], task_programs=len(progs), yields_per_task="2..3 from %s" % KINDS, durations="1..5000 ms symbolic", clock_advance="symbolic per select call",
                       ready_sets="symbolic per select call (first 6 calls)", timers=[(t['recurring'], t['cancel_after'], t.get('start', 'now'), 'absolute' if t.get('absolute') else 'relative') for t in timers])
   return [
-    Obligation('O1_tasks', h_tasks, [dict(prog=p) for p in progs], witnesses=('done',), max_decisions=20000, mode='int',
+    Obligation('O1_tasks', h_tasks, [dict(prog=p) for p in progs] + [dict(prog=p, lowprio=True) for p in low], witnesses=('done',), max_decisions=20000, mode='int',
                desc='execution trace of task programs under symbolic time / readiness'),
     Obligation('O2_timers', h_timer, timers, witnesses=('done',), max_decisions=20000, mode='int', desc='one-shot / recurring / cancelled / self-stopping timers'),
     Obligation('O4_epoll', h_epoll, [dict(ncalls=3)] + ([dict(ncalls=4)] if thorough else []), witnesses=('done',), max_decisions=20000, mode='int',
